@@ -111,12 +111,15 @@ def compute_interpolation_weights(inputs, keypoints, lengths):
     `(batch_size, units, num_keypoints)`.
   """
   # Learned keypoints can collapse (softmax underflow): a piece of zero length
-  # is a step at its keypoint rather than 0/0.
+  # is a step at its keypoint rather than 0/0. The step is taken strictly
+  # after the keypoint so that it agrees with neighbouring pieces of tiny but
+  # positive length, whose weight at their (numerically identical) left end
+  # is 0.
   is_piece = lengths > 0
   weights = tf.where(
       is_piece,
       (inputs - keypoints) / tf.where(is_piece, lengths, tf.ones_like(lengths)),
-      tf.cast(inputs >= keypoints, dtype=inputs.dtype))
+      tf.cast(inputs > keypoints, dtype=inputs.dtype))
   weights = tf.minimum(weights, 1.0)
   weights = tf.maximum(weights, 0.0)
   # Prepend 1.0 at the beginning to add bias unconditionally. Worth testing
